@@ -846,8 +846,6 @@ def judge_mboot(sess: MbootSession, op, out: Outcome, j0: int, loose0: int, peek
         elif out.exc is None:
             if out.status != dev_status:
                 v.append((f"mboot-{tr}-{o}-status-code-differs-from-device-{why}", dict(base, device_status=dev_status)))
-            if sess.cfg["cmd_exception"] and o not in ("get_property",) and not (o == "efuse_program_once"):
-                pass  # a falsy return without exception is still a reported failure
         return f"device-error-{why}", v
     return f"device-{why}", v
 
@@ -1690,21 +1688,21 @@ def cases(tier, seed):
     yield {"kind": "directed_mboot"}
     yield {"kind": "directed_sdp"}
     for tr in ("uart", "usb"):
-        for k in range(1400 if th else 150):
+        for k in range(1000 if th else 150):
             yield {"kind": "mboot_hist", "transport": tr, "k": k}
-        for k in range(60 if th else 3):
+        for k in range(40 if th else 3):
             yield {"kind": "mboot_big", "transport": tr, "k": k}
-        for k in range(200 if th else 12):
+        for k in range(140 if th else 12):
             yield {"kind": "mboot_status", "transport": tr, "k": k, "budget": 60 if th else 40}
-        for k in range(300 if th else 28):
+        for k in range(220 if th else 28):
             yield {"kind": "mboot_fault", "transport": tr, "k": k, "budget": 250 if th else 160}
         for k in range(16 if th else 1):
             yield {"kind": "mboot_fault_exhaustive", "transport": tr, "k": k}
-        for k in range(1000 if th else 90):
+        for k in range(700 if th else 90):
             yield {"kind": "sdp_hist", "transport": tr, "k": k}
         for k in range(60 if th else 6):
             yield {"kind": "sdp_status", "transport": tr, "k": k}
-        for k in range(300 if th else 24):
+        for k in range(220 if th else 24):
             yield {"kind": "sdp_fault", "transport": tr, "k": k, "budget": 150 if th else 80}
     for k in range(4 if th else 1):
         yield {"kind": "sdps", "k": k}
@@ -1727,7 +1725,9 @@ def _directed_mboot(ctx):
                     d = next(e for e in ems if e[1] == "data")
                     c = next(e for e in ems if e[1] == "cmd")
                     plen = struct.unpack_from("<H", d[2], 2)[0]
-                    return [("trunc", d[0], 4 + plen - 2), ("trunc", c[0], 3), ("trunc", c[0], 10), ("missing", d[0], 0), ("abort", d[0], 0)]
+                    c2 = [e for e in ems if e[1] == "cmd"][1]  # the ReadMemory response (the first one answers the size query)
+                    return [("trunc", d[0], 4 + plen - 2), ("trunc", c[0], 3), ("trunc", c[0], 10), ("missing", d[0], 0), ("abort", d[0], 0),
+                            ("missing", c2[0], 0), ("trunc", c2[0], 9)]
                 run_mboot_fault_case(ctx, cfg, ops, ctx.rng, 100, cands_fn=cands)
             else:
                 def cands(ems):
